@@ -6,6 +6,10 @@ props = [json.loads(l) for l in open(os.path.join(ROOT, "properties.jsonl"))]
 
 # id -> (engine crate, technique, level text, level note, design ref)
 CHECKS = {
+ "C19": ("vf-api", "bounded-exhaustive pairwise check of all specified spellings plus property-based near-miss / random string generation against a hand-written spelling table",
+         "63 string enums (ruma-common, ruma-events incl. the seven event-type enums, ruma-state-res, client / federation / identity / push-gateway API crates) with 330+ spellings and their dedicated variants written from the specification: every spelling maps to its variant and back, nothing else maps to a dedicated variant, unknown strings (case flips, one-character edits, prefixes/suffixes, whitespace, random Unicode) are returned byte for byte, the alias maps to its canonical spelling, wildcard types keep their suffix; idempotence, Display / JSON agreement, == and Ord consistency (string order for the hand-listed AsRefStr-ordered types).",
+         "Trusted: the hand-written table. Unstable-feature variants are not compiled in. Enums with std-derived Ord are only checked for total-order consistency (declaration order is what the code documents).",
+         "DESIGN.md section 5 C19"),
  "C20": ("vf-stateres", "bounded-exhaustive threshold-cell enumeration plus property-based random contents; differential against auth_check and the push condition",
          "For room versions 3-11 every helper (ban / kick / unban / invite a given user, send a message or state event type, trigger a room notification, effective level) is compared with ruma's auth_check on the corresponding event in a minimal room, and with the sender_notification_permission push condition, over cells where each threshold the action reads and the target's level are absent or just below / at / above the actor's level (integer and pre-v10 string spellings), plus random full contents.",
          "Trusted: ruma's auth_check as the statement of the authorization rules (itself checked against the spec by C08). Redaction helpers and user_can_change_user_power_level are outside the property's list; self-kick/unban not generated.",
